@@ -6,7 +6,10 @@ import (
 	"errors"
 	"sort"
 
+	"time"
+
 	"github.com/skycoin/skycoin/src/daemon/gnet"
+	"github.com/skycoin/skycoin/src/daemon/pex"
 	"github.com/skycoin/skycoin/src/params"
 )
 
@@ -163,7 +166,9 @@ func VerifAll(c *Connections) []VerifConn {
 // VerifMiniDaemon returns a Daemon that has exactly what onConnectEvent / onDisconnectEvent touch: a fresh Connections, a real
 // gnet pool run offline (messages to unknown connections fail and are logged) and a configuration; stop() shuts the pool down.
 func VerifMiniDaemon() (dm *Daemon, stop func()) {
-	gpool, err := gnet.NewConnectionPool(gnet.NewConfig(), nil)
+	gcfg := gnet.NewConfig()
+	gcfg.DialTimeout = time.Millisecond // outgoing attempts made through connectToPeer dial for real: fail at once
+	gpool, err := gnet.NewConnectionPool(gcfg, nil)
 	if err != nil {
 		panic(err)
 	}
@@ -173,7 +178,7 @@ func VerifMiniDaemon() (dm *Daemon, stop func()) {
 		gpool.RunOffline() //nolint:errcheck
 	}()
 	dm = &Daemon{
-		config: DaemonConfig{LocalhostOnly: true, IPCountsMax: 1000, Mirror: 99, ProtocolVersion: 2, userAgent: "skycoin:0.26.0",
+		config: DaemonConfig{LocalhostOnly: false, IPCountsMax: 1000, Mirror: 99, ProtocolVersion: 2, userAgent: "skycoin:0.26.0",
 			UnconfirmedVerifyTxn: params.UserVerifyTxn},
 		pool:        &Pool{Pool: gpool},
 		connections: NewConnections(),
@@ -191,3 +196,6 @@ func VerifOnConnectEvent(dm *Daemon, addr string, gnetID uint64, solicited bool)
 func VerifOnDisconnectEvent(dm *Daemon, addr string, gnetID uint64) {
 	dm.onDisconnectEvent(DisconnectEvent{GnetID: gnetID, Addr: addr, Reason: errors.New("connection reset")})
 }
+
+// VerifConnectToPeer is the daemon's outgoing-attempt entry point (it reserves the pending record and dials in the background).
+func VerifConnectToPeer(dm *Daemon, addr string) error { return dm.connectToPeer(pex.Peer{Addr: addr}) }
